@@ -49,11 +49,16 @@ def rand_hard_constraint(rng, seq, kinds=None):
                 d["max_edits_percent"] = rng.choice(pcts)
         return d
     if k == "keep_idx":
-        idx = sorted(rng.sample(range(n), rng.randint(1, min(4, n))))
+        idx = sorted(rng.sample(range(n), rng.randint(1, min(5, n))))
         d = dict(kind="keep_idx", indices=idx)
         if rng.random() < 0.25:
             # indices given together with a (wider) location
             d["location"] = [max(0, idx[0] - rng.randint(0, 3)), min(n, idx[-1] + 1 + rng.randint(0, 3)), 1]
+        if rng.random() < 0.4:
+            # the user's list need not be sorted
+            idx = idx[:]
+            rng.shuffle(idx)
+            d["indices"] = idx
         return d
     if k in ("cds", "rare"):
         if n < 3:
@@ -86,7 +91,10 @@ def rand_hard_constraint(rng, seq, kinds=None):
         a = rng.randint(0, n - 1)
         b = rng.randint(a + 1, min(n, a + 4))
         if rng.random() < 0.3:
-            return dict(kind="change_idx", indices=sorted(rng.sample(range(n), rng.randint(1, min(3, n)))))
+            idx = sorted(rng.sample(range(n), rng.randint(1, min(4, n))))
+            if rng.random() < 0.4:
+                rng.shuffle(idx)
+            return dict(kind="change_idx", indices=idx)
         return dict(kind="change", location=[a, b, rng.choice([1, 0, -1])])
     raise ValueError(k)
 
